@@ -64,9 +64,12 @@ SIG_TIES = "C03-tied-distances-order-dependent-k"
 
 
 # ----------------------------------------------------------------------------- running
-def run_impl(ctx, exe, lines, timeout=600):
+def run_impl(ctx, exe, lines, timeout=None):
     """Feed `lines` (one case each) to the C++ driver.  Returns a list aligned with lines:
-    a token list (the words after 'R') or {'crash': text}."""
+    a token list (the words after 'R') or {'crash': text}.  A hang costs `timeout` seconds per restart and at
+    most MAX_CRASHES_PER_STREAM restarts."""
+    if timeout is None:
+        timeout = 200 if ctx.quick else 900
     results = [None] * len(lines)
     start = 0
     guard = 0
@@ -783,13 +786,13 @@ def api_eval(ctx, api, mexe, jobs, stats, stop_after=None):
     n = 0
     for i in range(0, len(jobs), 200):
         chunk = jobs[i:i + 200]
-        res = run_impl(ctx, api, [a_line(j) for j in chunk], timeout=600)
+        res = run_impl(ctx, api, [a_line(j) for j in chunk], timeout=150)
         bad = [(j, ri) for j, ri in zip(chunk, res) if not skipped(ri) and not api_ok(ri)]
         n += len(chunk)
         stats["api_runs"] += sum(1 for ri in res if not skipped(ri))
         if bad:
             ctrl = [dict(j, k=len(j["pts"]) - 1) for j, _ in bad]
-            cres = run_impl(ctx, api, [a_line(j) for j in ctrl], timeout=600)
+            cres = run_impl(ctx, api, [a_line(j) for j in ctrl], timeout=150)
             for (j, ri), cr in zip(bad, cres):
                 what = str(ri["crash"])[:300] if crashed(ri) else " ".join(ri)[:300]
                 if api_ok(cr):
@@ -846,23 +849,74 @@ def api_search(ctx, api, mexe, stats, rng, budget):
     return n
 
 
-def probe_tied_order(ctx, exe, stats):
-    """Proposed known finding: with tied distances the exact k-NN lists are not unique and the number of
-    neighbours depends on the order of the samples (cc_order_ties_refuted).  Probed only when the coordinator has
-    registered the signature in known_findings.json (then vlib prints KNOWN-FINDING); never a verdict otherwise."""
-    if not any(e.get("kind") == "finding" and e.get("signature") == SIG_TIES for e in ctx._known_db):
-        return 0
-    pts = [(0,), (1,), (2,), (3,), (6,)]
-    lines = [p_line("F", m, 1, 3, 1, q) for m in (0, 2) for q in (pts, list(reversed(pts)))]
+def boundary_tie(pts, dim, ks):
+    """some sample sees its k-th and (k+1)-th nearest other samples at the same distance, for some k in ks:
+    exactly then the exact k-NN list of that sample is not unique as a set"""
+    N = len(pts)
+    for i in range(N):
+        ds = sorted(sum(abs(pts[i][c] - pts[j][c]) for c in range(dim)) for j in range(N) if j != i)
+        for k in ks:
+            if 1 <= k < len(ds) and ds[k - 1] == ds[k]:
+                return True
+    return False
+
+
+def k_sequence(k, N, upto):
+    ks, kj = [], min(k, N - 1)
+    while True:
+        ks.append(kj)
+        if kj >= N - 1 or kj >= upto or kj <= 0:
+            break
+        kj = min(2 * kj, N - 1)
+    return ks
+
+
+def eval_order_pairs_with_ties(ctx, exe, stats, pairs):
+    """pairs: (k, pts, method) on data that may contain tied distances.  The samples are supplied forwards and
+    backwards.  A different number of neighbours is the KNOWN FINDING (signature SIG_TIES) exactly when some
+    sample has a tie at the boundary of its k_j-NN list for a k_j the recursion went through (the exact lists
+    are then not unique, cc_order_ties_refuted); without such a tie the lists are unique and a difference is a
+    VIOLATION (cc_order_independent needs only uniqueness of the lists)."""
+    lines = []
+    for k, pts, m in pairs:
+        lines.append(p_line("F", m, 1, k, 1, pts))
+        lines.append(p_line("F", m, 1, k, 1, list(reversed(pts))))
     res = run_impl(ctx, exe, lines)
-    for m, (a, b) in zip((0, 2), (res[0:2], res[2:4])):
+    for i, (k, pts, m) in enumerate(pairs):
+        a, b = res[2 * i], res[2 * i + 1]
         ra, rb = (None if crashed(a) else parse_F(a)), (None if crashed(b) else parse_F(b))
-        if ra and rb and len(ra[0]) != len(rb[0]):
+        if not ra or not rb:
+            continue            # aborts are judged by the streams that own these inputs
+        stats["tied_pairs"] += 1
+        ka, kb = len(ra[0]), len(rb[0])
+        if ka == kb:
+            continue
+        N = len(pts)
+        case = {"kind": "points_pair", "dim": 1, "pts": pts, "k": k, "method": m, "perm": list(range(N - 1, -1, -1))}
+        if boundary_tie(pts, 1, k_sequence(k, N, min(ka, kb))):
             stats["tied_order_dependent"] += 1
-            ctx.violation({"kind": "points_pair", "dim": 1, "pts": pts, "k": 3, "method": m, "perm": [4, 3, 2, 1, 0]},
-                          "tied distances: %d neighbours for the samples 0,1,2,3,6, %d for the same samples supplied "
-                          "backwards (method %s)" % (len(ra[0]), len(rb[0]), METHODS[m]), signature=SIG_TIES)
+            if not any(e.get("kind") == "finding" and e.get("signature") == SIG_TIES for e in ctx._known_db):
+                continue        # not registered as a known finding: counted, never a verdict
+            ctx.violation(case, "tied distances: %d neighbours for the samples %s, %d for the same samples supplied "
+                                "backwards (method %s); some sample has a tie at the boundary of its k-NN list, the "
+                                "exact lists are not unique" % (ka, [p[0] for p in pts], kb, METHODS[m]),
+                          signature=SIG_TIES)
+        else:
+            ctx.violation(case, "the number of neighbours depends on the order of the samples although no sample has "
+                                "a tie at the boundary of its k-NN list (exact lists unique): %d forwards, %d backwards "
+                                "(method %s)" % (ka, kb, METHODS[m]), signature=SIG_F3)
     return len(lines)
+
+
+def probe_tied_order(ctx, exe, stats, rng, quick):
+    """the registered example 0,1,2,3,6 with k = 3 through the three methods, then lattice sets with ties"""
+    pts = [(0,), (1,), (2,), (3,), (6,)]
+    pairs = [(3, pts, m) for m in (0, 1, 2)]
+    sets = [c for c in small_sets(max_pts=7, top=9, min_pts=5)]
+    rng.shuffle(sets)
+    for c in sets[:60 if quick else 600]:
+        pairs.append((rng.choice([1, 2, 3]), c, rng.choice([0, 0, 2])))
+    return eval_order_pairs_with_ties(ctx, exe, stats, pairs)
 
 
 def build_or_error(ctx, src, kw):
@@ -879,7 +933,7 @@ def new_stats():
     return {k: 0 for k in ("graphs", "strong", "first_not_strong", "spec_fail_graph", "graph_perms", "point_runs",
                            "raised", "spec_fail_points", "point_perms", "model_shipped_differs",
                            "geodesic_matrices", "graphs_ragged", "api_runs", "api_k_graph_not_strong",
-                           "api_violations", "api_other_failures", "tied_order_dependent", "recursion_replays", "edge_set_comparisons",
+                           "api_violations", "api_other_failures", "tied_pairs", "tied_order_dependent", "recursion_replays", "edge_set_comparisons",
                            "method_set_comparisons")}
 
 
@@ -1022,7 +1076,7 @@ def run(ctx):
         budget = 60000
     n += search_small_sets(ctx, exe, mexe, stats, budget, rng)
 
-    n += probe_tied_order(ctx, exe, stats)
+    n += probe_tied_order(ctx, exe, stats, rng, quick)
     ctx.note("t=%.0fs after small lattice sets" % ctx.elapsed())
     # ---- a few malformed graphs, one process each: recorded, never a verdict
     for rows in ([[1], [5]], [[1, 1], [0]], [[2], [0], [7]]):
